@@ -21,11 +21,15 @@ func HarnessC17Stall() {
 	s.authFn = hxAuthSimple
 	s.expectTimeout = 7 * time.Second
 	// stall point: -1 = silent before the greeting, k = no reply to command k
-	k := svPick("stall", svParam("maxstall", 12)+1) - 1
-	if k < 0 {
+	// (-2 = the server stops READING once it accepted DATA: content writes block)
+	k := svPick("stall", svParam("maxstall", 12)+2) - 2
+	switch {
+	case k == -2:
+		s.contentStall = true
+	case k < 0:
 		s.out = nil
 		s.stalled = true
-	} else {
+	default:
 		s.stallAt = k
 	}
 	opts := []Option{WithTimeout(7 * time.Second)}
